@@ -151,6 +151,10 @@ func panicValue(kind string) interface{} {
 		return "injected internal fault (string)"
 	case "fmtString":
 		return "injected %d %s fault" // goes through fmt.Errorf(e) in the recover branch
+	case "customError":
+		return &customErr{code: 7}
+	case "wrappedError":
+		return fmt.Errorf("wrapped: %w", errors.New("injected internal fault"))
 	}
 	return errors.New("injected internal fault")
 }
@@ -258,3 +262,7 @@ func (e *Engine) BuildScript(spec *plan.Script) (*tengo.Script, error) {
 	}
 	return s, nil
 }
+
+type customErr struct{ code int }
+
+func (c *customErr) Error() string { return "custom error " + fmt.Sprint(c.code) }
